@@ -254,6 +254,23 @@ func (st *State) runLoop(lp *loopParts) []Outcome {
 				for i, inv := range spec.Invariants {
 					e.st.oblige("inv-preserved", fmt.Sprintf("%s/inv%d", tag, i+1), envAt(e.st).evalBool(inv.Expr), lp.pos)
 				}
+				// the lock state (held mutexes and the count of critical sections entered) is tracked concretely per
+				// path, so it has to be the same at the back edge as at the loop head: a body that takes and releases
+				// a mutex would otherwise enter one critical section per iteration unnoticed
+				if len(e.st.locks) > 0 || len(h.locks) > 0 {
+					same := true
+					for k, v := range e.st.locks {
+						if h.locks[k] != v {
+							same = false
+						}
+					}
+					for k, v := range h.locks {
+						if e.st.locks[k] != v {
+							same = false
+						}
+					}
+					e.st.oblige("lock", "lock-state-unchanged-by-iteration("+tag+")", boolStr(same), lp.pos)
+				}
 				if spec.Decreases != nil {
 					d1 := envAt(e.st).eval(spec.Decreases.Expr).S
 					e.st.oblige("decreases", tag, sAnd(sCmp("<=", "0", dec0), sCmp("<", d1, dec0)), lp.pos)
